@@ -132,4 +132,31 @@ theorem include_attribution_full_fails :
 example : (serveInclude toyNetL witInc ⟨b!"8.8.8.8:1", false, b!"a", false⟩ [(b!"X-Forwarded-For", b!"6.6.6.6")]).clientIP = b!"6.6.6.6" ∧
     (serve toyNetL witInc ⟨b!"8.8.8.8:1", false, b!"a", false⟩ [(b!"X-Forwarded-For", b!"6.6.6.6")]).clientIP = b!"8.8.8.8" := by decide
 
+/-- trusted_proxies 10.0.0.0/8, default client_ip_headers -/
+def exCfgW : Cfg Bytes :=
+  { srvTrusted := some [b!"10."], clientIPHeaders := none, strict := 0, handlerTrusted := [],
+    omitXFF := false, omitXFP := false, omitXFH := false }
+def exTrustedW : Conn := ⟨b!"10.0.0.1:443", false, b!"example.com", false⟩
+
+/-! ### why the attribution must be per request: a per-connection cache breaks it
+
+`determineTrustedProxy` returns two things: whether the PEER is a trusted proxy (a fact of the connection)
+and the client address (a fact of the REQUEST's headers).  Remembering its result on the connection — run it
+for the first request, reuse it for the following ones — keeps the first but breaks the second. -/
+
+/-- the requests of a connection with the first request's `(trusted, clientIP)` remembered on the connection -/
+def serveConnectionCached (N : Net Bytes Bytes) (cfg : Cfg Bytes) (c : Conn) : List (List (Bytes × Bytes)) → List Out
+  | [] => []
+  | w :: rest =>
+    serve N cfg c w :: rest.map (fun w' =>
+      { serve N cfg c w' with clientIP := (serve N cfg c w).clientIP, trusted := (serve N cfg c w).trusted })
+
+/-- with such a cache the second request on a trusted proxy's connection is attributed the FIRST request's
+    client, whatever its own X-Forwarded-For says; per request it is attributed its own -/
+theorem per_connection_cache_breaks_history_independence :
+    (serveConnectionCached toyNet exCfgW exTrustedW [[(b!"X-Forwarded-For", b!"9.9.9.9")], [(b!"X-Forwarded-For", b!"8.8.8.8")], []]).map (·.clientIP) =
+      [b!"9.9.9.9", b!"9.9.9.9", b!"9.9.9.9"] ∧
+    (serveConnection toyNet exCfgW exTrustedW [[(b!"X-Forwarded-For", b!"9.9.9.9")], [(b!"X-Forwarded-For", b!"8.8.8.8")], []]).map (·.clientIP) =
+      [b!"9.9.9.9", b!"8.8.8.8", b!"10.0.0.1"] := by decide
+
 end CaddyModel.C10
